@@ -632,9 +632,11 @@ func runBulks(rng *vh.RNG, hotS, hotR, coldS, coldR, nbulks int, directed, seque
 
 // runBreaker: scenarios in which the circuit breaker itself ends or refuses a shard attempt.  The breaker manager is
 // reset first (circuits are global by name and keep the configuration they were created with).
-//   timeout : execution timeout 50 ms; one replica of the only hot shard needs 250 ms (always for bulk p0, only on its
-//             first call for bulk p1); the caller's context stays alive
-//   throttle: MaxConcurrent = 1; several bulks in flight on one shard with 40 ms store latency, so attempts are rejected
+//
+//	timeout : execution timeout 50 ms; one replica of the only hot shard needs 250 ms (always for bulk p0, only on its
+//	          first call for bulk p1); the caller's context stays alive
+//	throttle: MaxConcurrent = 1; several bulks in flight on one shard with 40 ms store latency, so attempts are rejected
+//
 // A timed-out or rejected attempt is a failed/skipped call: per payload, acknowledged => full replica set accepted it.
 func runBreaker(rng *vh.RNG, kind string, coldS int) (cases []string, bad []string) {
 	circuitbreaker.VerifResetC09()
